@@ -168,3 +168,25 @@ Definition occ_state_ok (r r1 r0 : rank) (n k : nat) (Li : list rank) (s : list 
 
 (* first coordinate of a chunk *)
 Definition head_key (ch : list (coord * trie)) : Z := match ch with ct :: _ => fst ct | [] => 0 end.
+
+(* ---------- occupancy beneath occupancy ---------- *)
+(* run Lo1, split (r -> r2, rx), run Lo2, split (rx -> r1, r0), run Li *)
+Definition run_split_split (Lo1 : list rank) (split2 : term -> term) (Lo2 : list rank) (split1 : term -> term)
+                           (Li : list rank) (tms : list term) : list contrib :=
+  run_k Lo1 (fun s => run_then_split Lo2 split1 Li (map split2 s)) tms.
+
+Definition occ2_state_ok (r r2 rx : rank) (n2 k2 : nat) (Lo2 : list rank) (r1 r0 : rank) (n1 k1 : nat) (Li : list rank)
+                         (s : list term) : Prop :=
+  (forall tm, In tm s -> term_ok r tm /\ leader_ok r k2 tm) /\
+  forall tm, In tm s -> wf_outer Lo2 (occ_state_ok rx r1 r0 n1 k1 Li) [occ_split r r2 rx n2 k2 tm].
+
+(* static validator of the two-level stack *)
+Fixpoint occ2_dyn_okb (Lo1 : list rank) (r r2 rx : rank) (k2 : nat) (Lo2 : list rank) (r1 r0 : rank) (k1 : nat)
+                      (Li : list rank) (sh : list (list rank)) : bool :=
+  match Lo1 with
+  | [] => forallb (rems_okb r) sh
+          && match nth_error sh k2 with Some rs => heads r rs | None => false end
+          && occ_dyn_okb Lo2 rx r1 r0 k1 Li (map (occ_rems r r2 rx) sh)
+  | x :: Lo1' => negb (String.eqb x r) && negb (String.eqb x rx) && existsb (heads x) sh
+                 && occ2_dyn_okb Lo1' r r2 rx k2 Lo2 r1 r0 k1 Li (step_rems x sh)
+  end.
